@@ -126,7 +126,7 @@ func (c13) Gen(r *world.Rng, tier string, n int) interface{} {
 		return sc
 	}
 	sc.Kind = "cancel"
-	sc.Parent = []string{"background", "withcancel", "withtimeout", "nested", "simctx", "simctx"}[r.Intn(6)]
+	sc.Parent = []string{"background", "withcancel", "withtimeout", "nested", "simctx", "simctx", "cancelcause", "timeoutcause"}[r.Intn(8)]
 	sc.By = []string{"self", "self", "other", "deadline", "pre", "never"}[r.Intn(6)]
 	if sc.Parent == "simctx" {
 		if sc.By == "deadline" {
@@ -140,7 +140,7 @@ func (c13) Gen(r *world.Rng, tier string, n int) interface{} {
 	}
 	if sc.By == "deadline" {
 		sc.LatencyNS = int64(r.Pick(1000, 1000, 250, 7777))
-		sc.Parent = "withtimeout"
+		sc.Parent = []string{"withtimeout", "withtimeout", "timeoutcause"}[r.Intn(3)]
 	}
 	// cancellation instants: a window of consecutive ticks (so that every access
 	// phase inside an instruction is hit) plus a few seeded ones
@@ -338,6 +338,18 @@ func mkCtx(sc *C13Sc, deadline time.Duration) (ctx context.Context, fire func(),
 		type k struct{}
 		c, cc := context.WithCancel(context.WithValue(p, k{}, 1))
 		return c, pc, nil, func() { cc(); pc() }
+	case "cancelcause":
+		// the caller attaches a cause: ctx.Err() is still context.Canceled, context.Cause(ctx) is not
+		c, cancel := context.WithCancelCause(bg)
+		f := func() { cancel(errors.New("caller's own reason")) }
+		return c, f, nil, f
+	case "timeoutcause":
+		d := time.Hour
+		if sc.By == "deadline" {
+			d = deadline
+		}
+		c, cancel := context.WithTimeoutCause(bg, d, errors.New("caller's own deadline reason"))
+		return c, cancel, nil, cancel
 	case "simctx":
 		s := newSimCtx(sc.HoldCall)
 		return s, s.cancel, s, func() { s.cancel(); s.releaseAll() }
@@ -451,6 +463,9 @@ func c13One(sc *C13Sc, cancelTick uint64, env *Env) *Violation {
 		}
 		if !fired {
 			env.Class("never-cancelled-runs-on")
+			// the harness itself tore this Run down with a panic through the device callback; what that leaves
+			// behind is not "Run returned": the bubble's leak verdict is waived
+			env.Waive = true
 			return nil // program did not terminate and the cancel instant was never reached: no verdict
 		}
 		return viol("bounded-liveness", "%s: Run still executing at tick %d", what, T)
@@ -792,12 +807,13 @@ func (c13) Exec(sci interface{}, env *Env) (res *Violation) {
 		return viol("harness", "no *testing.T for a synctest bubble")
 	}
 	finished := false
+	env.Waive = false
 	func() {
 		defer func() {
 			if r := recover(); r != nil {
 				msg := fmt.Sprint(r)
 				if strings.Contains(msg, "deadlock") && strings.Contains(msg, "blocked goroutines remain") {
-					if res == nil {
+					if res == nil && !env.Waive {
 						res = viol("goroutine-left-behind", "the bubble ended with goroutines still blocked: something Run started was never released (parent=%s by=%s kind=%s): %s", sc.Parent, sc.By, sc.Kind, msg)
 					}
 					return
